@@ -1131,6 +1131,29 @@ def tables_of(ctx, tier):
             else:
                 m = 3 if tier == 'quick' else 6
                 t['nforms'] = [list(FORM_PAIRS[(m * (ti + n) + j) % len(FORM_PAIRS)]) for j in range(m)]
+    # ---- part G: on the 3-row (or only) table, ONE GenerateModel object is asked for several models in turn (no new generation)
+    ops = gen_ops(ctx)
+    pairs = [[a, b] for a in ops for b in ops]
+    triples = [[a, b, c] for a in ops for b in ops for c in ops]
+    gt = out[:2][-1]
+    if ctx.get('part2') is None:
+        # logit is the only model of a context without a second sample: the same call twice (thorough: three times)
+        if tier == 'quick':
+            seqs = pairs if (full or n % 4 == 0) else []
+        else:
+            seqs = (pairs if (full or n % 2 == 0) else []) + (triples if (full and n % 2 == 0) else [])
+    elif tier == 'quick':
+        if full and (ctx.get('mv') == 'N' or n % 2 == 0):
+            seqs = pairs
+        else:
+            seqs = [pairs[(2 * n + j) % len(pairs)] for j in range(2 if full else 1)]
+    else:
+        if full:
+            seqs = pairs + (triples if n % 16 == 0 else [triples[(2 * n + j) % len(triples)] for j in range(2)])
+        else:
+            seqs = [pairs[n % len(pairs)], triples[n % len(triples)]]
+    if seqs:
+        gt['ghist'] = [[q, 'fwd' if (qi + n) % 2 == 0 else 'rev'] for qi, q in enumerate(seqs)]
     # ---- part H: additional tables = the first tables again, generated after / before other contexts on the same frames
     base = out[:2]
     cnl = ctx.get('mv') in CNL_STRUCTS
@@ -1145,7 +1168,7 @@ def tables_of(ctx, tier):
         else:
             plan = [(base[-1], HIST_NAMES[(3 * n + j) % len(HIST_NAMES)]) for j in range(3)]
     for b, h in plan:
-        out.append(dict({k: v for k, v in b.items() if k != 'nforms'}, hist=h))
+        out.append(dict({k: v for k, v in b.items() if k not in ('nforms', 'ghist')}, hist=h))
     # ---- part S: additional tables = the 3-row (or only) table again, the same sizes / partition handed over in another form
     nf = len(FORM_COMBOS)
     if tier == 'quick':
@@ -1154,8 +1177,17 @@ def tables_of(ctx, tier):
         combos = (FORM_COMBOS if (full and n % 3 == 0)
                   else [FORM_COMBOS[(2 * n + j) % nf] for j in range(2)])
     for sf, pf in combos:
-        out.append(dict({k: v for k, v in base[-1].items() if k != 'nforms'}, sform=sf, pform=pf))
+        out.append(dict({k: v for k, v in base[-1].items() if k not in ('nforms', 'ghist')}, sform=sf, pform=pf))
     return out
+
+
+def gen_ops(ctx):
+    """alphabet of the model-building calls that are valid on a GenerateModel object of this context (part G)"""
+    if ctx.get('part2') is None:
+        return [['logit', None]]
+    if ctx.get('mv') in CNL_STRUCTS:
+        return [['logit', None], ['cnl', ctx['mv']], ['nested', 'N0']]
+    return [['logit', None], ['nested', 'N0'], ['nested', 'N1'], ['nested', 'N2']]
 
 
 FORM_PAIRS = ([(sn, f) for f in NEST_FORMS for sn in ('N0', 'N3', 'N4')]
